@@ -233,6 +233,11 @@ def extra_units():
         v = copy.copy(u)
         v.prop = PROP
         out.append(v)
+    # a molecule that is ejected while a fragment can still join it splits a true molecule: C07's no-late-join contract
+    from contracts import c07
+    v = copy.copy(c07.can_be_yielded)
+    v.prop = PROP
+    out.append(v)
     return out
 
 
